@@ -37,7 +37,18 @@ USER_RECIPES = {
     "user3multi": ('import numpy as np\ndef recipe(fi, arr, sol):\n    """rho_ct cp_ct t_in"""\n'
                    '    return np.stack([sol.density_mass, sol.cp_mass, arr[..., fi["temp"]] * 1.0], axis=-1)\n',
                    ["rho_ct", "cp_ct", "t_in"]),
+    # recipes whose result is not float64 (a flag, a bin index, a single-precision value, the index of the
+    # dominant species): the written FAB announces 8-byte reals whatever the recipe returns
+    "user2flag": ('def recipe(fi, arr):\n    """hot"""\n    return arr[..., fi["f0"]] > 0.5\n', ["hot"]),
+    "user2bin": ('import numpy as np\ndef recipe(fi, arr):\n    """bin"""\n'
+                 '    return np.floor(arr[..., fi["f0"]] * 10.0).astype(int)\n', ["bin"]),
+    "user2single": ('import numpy as np\ndef recipe(fi, arr):\n    """f0_sp twice_sp"""\n'
+                    '    return np.stack([arr[..., fi["f0"]], arr[..., fi["f0"]] * 2.0], axis=-1).astype(np.float32)\n',
+                    ["f0_sp", "twice_sp"]),
+    "user3dominant": ('import numpy as np\ndef recipe(fi, arr, sol):\n    """dominant"""\n'
+                      '    return np.argmax(sol.X, axis=-1)\n', ["dominant"]),
 }
+OTHER_DTYPE = ("user2flag", "user2bin", "user2single", "user3dominant")
 
 
 def cases(tier, seed):
@@ -122,7 +133,16 @@ def expected_new(kind, arr, names, P, sel):
     if kind == "user2multi":
         return [("u_new", arr[..., names.index("f0")] * 2.0),
                 ("v_new", arr[..., names.index("f1")] - arr[..., names.index("f0")])], None
+    if kind == "user2flag":
+        return [("hot", (arr[..., names.index("f0")] > 0.5).astype(np.float64))], None
+    if kind == "user2bin":
+        return [("bin", np.floor(arr[..., names.index("f0")] * 10.0))], None
+    if kind == "user2single":
+        f = arr[..., names.index("f0")]
+        return [("f0_sp", f.astype(np.float32).astype(np.float64)), ("twice_sp", (f * 2.0).astype(np.float32).astype(np.float64))], None
     gas, sa, und = ref_state(arr, names, P)
+    if kind == "user3dominant":
+        return [("dominant", np.argmax(sa.X, axis=-1).reshape(shp).astype(np.float64))], und
     if kind == "user3":
         return [("rho_ct", sa.density_mass.reshape(shp))], und
     if kind == "user3multi":
@@ -326,6 +346,8 @@ def run_case(case, work, rec):
             for kept in ((None, names[-1]) if case.get("scale") else
                          (None, names[-1], " ".join(reversed(names[:2])), "nope " + names[0] + " zz")):
                 configs.append((kind, kept, None, None))
+        k2 = OTHER_DTYPE[case["sel_seed"] % 3]
+        configs += [(k2, None, None, None), (k2, names[-1], None, None)]
     else:
         sp = species()
         s3 = rng.sample(sp, 3)
@@ -336,7 +358,8 @@ def run_case(case, work, rec):
                    ("RRi", None, None, [0, 5, 17]), ("RRi", "density", None, [3]),
                    ("user3", None, None, None), ("user3", "temp Y(O2) Y(N2)", None, None),
                    ("user3multi", None, None, None), ("user3multi", "Y(H2) density", None, None),
-                   ("SDi" if rng.random() < 0.5 else "SRi", None, "all", None)]
+                   ("SDi" if rng.random() < 0.5 else "SRi", None, "all", None),
+                   ("user3dominant", None, None, None), ("user3dominant", "temp", None, None)]
     modes = [("serial", None), ("parallel", "inproc"), ("parallel", "fork")]
     ci = 0
     for kind, kept, spsel, rxsel in configs:
